@@ -23,13 +23,15 @@ UNIT = l0.UNIT
 
 def _ids(sol):
     post = sol.solution_full
+    pf = jnp.zeros_like(sol.u.mean_flat)
     if isinstance(post, eal.MarkovSequence):
         pm, pc = post.marginal.mean_flat, post.conditional.A
     elif isinstance(post, eal.SmoothingSolution):
         pm, pc = post.posterior.marginal.mean_flat, post.posterior.conditional.A
+        pf = post.filtering.mean_flat  # the filtering distributions a smoother returns next to the smoothing posterior
     else:
         pm, pc = post.mean_flat, jnp.zeros_like(post.mean_flat)
-    return dict(u=sol.u.mean_flat, pm=pm, pc=pc, t=sol.t, n=sol.num_steps, scale=sol.output_scale)
+    return dict(u=sol.u.mean_flat, pm=pm, pc=pc, pf=pf, t=sol.t, n=sol.num_steps, scale=sol.output_scale)
 
 
 class TracedSolver:
@@ -148,7 +150,7 @@ def normalise(events):
     out = []
     keys = {}
     for e in events:
-        r = {"op": e["op"], "name": "", "out": e.get("out", []), "in": e.get("in", []), "i": [], "sc": NOSC, "aux": [], "aux2": [], "n": [], "scs": []}
+        r = {"op": e["op"], "name": "", "out": e.get("out", []), "in": e.get("in", []), "i": [], "sc": NOSC, "aux": [], "aux2": [], "aux3": [], "n": [], "scs": []}
         op = e["op"]
         if op == "marker":
             if e["name"] == "offgrid":
@@ -182,6 +184,7 @@ def normalise(events):
             r["sc"] = scale_code(float(e["o_scale"][-1]))
             r["aux"] = [int(v) for v in e["o_pc"]] if any(e["o_pc"]) else []
             r["aux2"] = [int(v) for v in e["o_pm"]][:1]
+            r["aux3"] = [int(v) for v in np.asarray(e["o_pf"]).reshape(-1)] if np.any(np.asarray(e["o_pf"])) else []
             r["scs"] = [scale_code(float(v)) for v in e["o_scale"]]
         elif op == "marker" and False:
             pass
